@@ -144,8 +144,10 @@ Definition isHTTPVersion (proto : bytes) : R bool :=
             if negb (is_digit c5) then Ok false
             else do c7 <- idx proto 7; Ok (is_digit c7).
 
-(* ---------- readRawHeaders (header.go): Ok None = ErrNeedMore, Ok (Some n) = block of n bytes ---------- *)
-Fixpoint rrh_loop (fuel : nat) (b : bytes) (m n : nat) : R (option nat) :=
+(* ---------- readRawHeaders (header.go) ---------- *)
+(* Ok None = ErrNeedMore; Ok (Some (dst, n)) = the copy stored in h.rawHeaders and the block length n.
+   With an empty header block (first line blank) dst stays empty: the function returns before copying. *)
+Fixpoint rrh_loop (fuel : nat) (buf b : bytes) (m n : nat) : R (option (bytes * nat)) :=
   match fuel with
   | O => OutOfFuel
   | S f =>
@@ -156,16 +158,18 @@ Fixpoint rrh_loop (fuel : nat) (b : bytes) (m n : nat) : R (option nat) :=
           let m' := S i in
           let n' := n + m' in
           do cr <- (if m' =? 2 then do c <- idx b' 0; Ok (N.eqb c CR) else Ok false);
-          if cr || (m' =? 1) then Ok (Some n') else rrh_loop f b' m' n'
+          if cr || (m' =? 1)
+          then do dst <- slice buf 0 n'; Ok (Some (dst, n'))       (* dst = append(dst, buf[:n]...) *)
+          else rrh_loop f buf b' m' n'
       end
   end.
-Definition readRawHeaders (buf : bytes) : R (option nat) :=
+Definition readRawHeaders (buf : bytes) : R (option (bytes * nat)) :=
   match index_byte buf LF with
   | None => Ok None
   | Some n =>
       do cr <- (if n =? 1 then do c <- idx buf 0; Ok (N.eqb c CR) else Ok false);
-      if cr || (n =? 0) then Ok (Some (n + 1))
-      else rrh_loop (S (length buf)) buf (n + 1) (n + 1)
+      if cr || (n =? 0) then Ok (Some ([], n + 1))
+      else rrh_loop (S (length buf)) buf buf (n + 1) (n + 1)
   end.
 
 (* ---------- headerScanner (headerscanner.go) ---------- *)
